@@ -119,6 +119,8 @@ type Books struct {
 	tokens  []*bToken
 	nextTok int
 
+	// replayed: successful POST requests seen so far (mint, path, body)
+	replayed map[string]bool
 	// tieBlind: see tiesAcrossFees (evaluated on the acting wallet before every operation)
 	tieBlind bool
 
@@ -656,6 +658,19 @@ func (b *Books) scanLog() {
 		if r.Status != 200 {
 			continue
 		}
+		// NUT-19: a request with the same method, path and body as an earlier successful one is answered from the mint's
+		// response cache without being executed again (e.g. a 1-sat proof swapped for NO outputs at a fee of 1 by reclaim,
+		// and the identical swap sent again by a later Receive of that token): nothing happened at the mint, so it is
+		// not booked twice
+		rk := r.Mint + " " + r.Path + " " + string(r.Body)
+		if b.replayed == nil {
+			b.replayed = map[string]bool{}
+		}
+		if b.replayed[rk] {
+			b.c.Hist("transport", "identical request answered again (response cache): not booked twice")
+			continue
+		}
+		b.replayed[rk] = true
 		var outSum, inSum uint64
 		for _, o := range req.Outputs {
 			outSum += o.Amount
